@@ -281,7 +281,11 @@ def check_queues(R, rule_prefix="R12", tier="quick"):
         st.extra["cap"] = cap
         qcell = Cell(fdai.ListV([Cell(SymV("e%d" % i, "entry %d" % i), "e%d" % i) for i in range(entries)]), "queue")
         st.extra["cells"] = {"queue": qcell}
-        res = eng.run(body, [RefV(qcell, (), True)] + list(extra_args), st)
+        try:
+            res = eng.run(body, [RefV(qcell, (), True)] + list(extra_args), st)
+        except (fdai.TooManyPaths, RecursionError) as e:
+            # the method branches on the content of the entries (a queue stores what it is given, whatever its number)
+            return [(fdai.State(), "undecided: the method's result depends on the entry's content (%s)" % type(e).__name__)] * 2
         out = []
         for r in res:
             qc = r.extra.get("cells", {}).get("queue")
